@@ -168,6 +168,14 @@ def _short(v):
     return s if len(s) <= 160 else s[:150] + "...#" + digest(s)[:12]
 
 
+class Opaque:
+    """a value of a type the library does not know (its text must not contain an address: JSX props
+    are written with str())"""
+
+    def __repr__(self) -> str:
+        return "<opaque>"
+
+
 class Prog:
     """Interpreter of the step language described in the module docstring.  Only public API is
     called (Tag / tag functions / TagList / attrs / class and style helpers / css / consolidate_attrs /
@@ -194,7 +202,7 @@ class Prog:
             from htmltools._jsx import jsx
             return jsx(v["js"])
         if "x" in v:
-            return {"obj": object(), "bytes": b"x", "list": [1, 2], "complex": 1j}[v["x"]]
+            return {"obj": Opaque(), "bytes": b"x", "list": [1, 2], "complex": 1j}[v["x"]]
         if "css" in v:
             return css(v.get("collapse", ""), **{k: self.val(y) for k, y in v["css"]})
         if "l" in v:
